@@ -424,6 +424,113 @@ fn reference(pr: &Problem, o: &Opt, x0: &[f64], k: usize, mut pert: Option<&mut 
     out
 }
 
+// ---------------------------------------------------------------------------------------------
+// every route to an optimizer with a given hyper-parameter setting
+//
+// "For every ... hyper-parameter setting": the setting is a property of the object that runs, however the
+// object came to have it. The public API of src/optimize/{adam,sgd,lm}.rs offers
+//   Adam: new(stepsize, beta1, beta2, epsilon) · Default (1e-3, 0.9, 0.999, 1e-8) · with_stepsize(s) · set_stepsize(s) · Clone
+//   SGD:  new(stepsize, momentum, nesterov)    · Default (1e-5, 0.9, true)         ·                  set_stepsize(s) · Clone
+//   LM:   new(eps1, eps2, tau)                 · Default (1e-6, 1e-6, 1e-2) · public fields eps1, eps2, tau          · Clone
+// Routes: `new` (every other workload), new with another stepsize + set_stepsize, Default + set_stepsize and
+// Adam::with_stepsize (hyper-parameters at their defaults), clone() of a configured object, clone then set, set
+// then clone, a clone of an object that has already been used (its tape is not empty), a clone used while the
+// original is used too (the original runs a few steps between any two calls of the clone). The object a route
+// produces gets the whole trajectory oracle (reference recurrence at every budget, early-stop rule), is compared
+// bit for bit with an object made by `new` (`C10.deterministic.fresh_vs_reused`) and, for the clone routes, with
+// the original it was cloned from, brought to the same setting (`C10.deterministic.clone_vs_original`).
+
+const ROUTES_ADAM: [&str; 8] = ["new+set_stepsize", "default+set_stepsize", "with_stepsize", "clone", "clone-then-set", "set-then-clone", "clone-of-used", "clone-interleaved"];
+const ROUTES_SGD: [&str; 7] = ["new+set_stepsize", "default+set_stepsize", "clone", "clone-then-set", "set-then-clone", "clone-of-used", "clone-interleaved"];
+/// routes that need the hyper-parameters other than the stepsize at their defaults
+fn route_needs_defaults(route: &str) -> bool {
+    route == "default+set_stepsize" || route == "with_stepsize"
+}
+
+/// the monitored object, the original a clone was taken from (same setting), and whether the original keeps
+/// being used between the calls of the monitored object
+struct Routed {
+    obj: LibOpt,
+    original: Option<LibOpt>,
+    interleave: bool,
+}
+
+impl LibOpt {
+    fn set_stepsize(&mut self, lr: f64) {
+        match self {
+            LibOpt::A(a) => a.set_stepsize(lr),
+            LibOpt::S(s) => s.set_stepsize(lr),
+        }
+    }
+    fn dup(&self) -> LibOpt {
+        match self {
+            LibOpt::A(a) => LibOpt::A(a.clone()),
+            LibOpt::S(s) => LibOpt::S(s.clone()),
+        }
+    }
+    fn with_lr(o: &Opt, lr: f64) -> LibOpt {
+        match *o {
+            Opt::Adam { b1, b2, eps, .. } => LibOpt::A(Adam::new(lr, b1, b2, eps)),
+            Opt::Sgd { mom, nesterov, .. } => LibOpt::S(SGD::new(lr, mom, nesterov)),
+        }
+    }
+}
+
+fn opt_lr(o: &Opt) -> f64 {
+    match *o {
+        Opt::Adam { lr, .. } | Opt::Sgd { lr, .. } => lr,
+    }
+}
+
+/// build the optimizer for `o` along `route` (`other_lr`: the stepsize an object holds before it is set; `warm`:
+/// a use of the original before it is cloned)
+fn build_route(o: &Opt, route: &str, other_lr: f64, warm: &dyn Fn(&LibOpt)) -> Routed {
+    let lr = opt_lr(o);
+    let plain = |obj: LibOpt| Routed { obj, original: None, interleave: false };
+    match route {
+        "new+set_stepsize" => {
+            let mut a = LibOpt::with_lr(o, other_lr);
+            a.set_stepsize(lr);
+            plain(a)
+        }
+        "default+set_stepsize" => {
+            let mut a = match o {
+                Opt::Adam { .. } => LibOpt::A(Adam::default()),
+                Opt::Sgd { .. } => LibOpt::S(SGD::default()),
+            };
+            a.set_stepsize(lr);
+            plain(a)
+        }
+        "with_stepsize" => plain(LibOpt::A(Adam::with_stepsize(lr))),
+        "clone" => {
+            let a = LibOpt::new(o);
+            Routed { obj: a.dup(), original: Some(a), interleave: false }
+        }
+        "clone-then-set" => {
+            let mut a = LibOpt::with_lr(o, other_lr);
+            let mut c = a.dup();
+            c.set_stepsize(lr);
+            a.set_stepsize(lr);
+            Routed { obj: c, original: Some(a), interleave: false }
+        }
+        "set-then-clone" => {
+            let mut a = LibOpt::with_lr(o, other_lr);
+            a.set_stepsize(lr);
+            Routed { obj: a.dup(), original: Some(a), interleave: false }
+        }
+        "clone-of-used" => {
+            let a = LibOpt::new(o);
+            warm(&a);
+            Routed { obj: a.dup(), original: Some(a), interleave: false }
+        }
+        "clone-interleaved" => {
+            let a = LibOpt::new(o);
+            Routed { obj: a.dup(), original: Some(a), interleave: true }
+        }
+        _ => plain(LibOpt::new(o)),
+    }
+}
+
 fn inf_norm(x: &[f64]) -> f64 {
     x.iter().fold(0.0f64, |m, v| if v.is_nan() { f64::INFINITY } else { m.max(v.abs()) })
 }
@@ -447,6 +554,8 @@ struct CaseSpec<'a> {
     regime: String,
     /// regime used for the early-stop assertions (directed cases name the mechanism)
     stop_regime: String,
+    /// how the optimizer object is made (`new` unless the case is one of the route family)
+    route: &'static str,
 }
 
 /// Trajectory reconstruction and all Adam/SGD assertions for one case.
@@ -456,7 +565,7 @@ fn monitor_case(rep: &mut Report, cs: &CaseSpec, rng: &mut Rng) {
     let n = x0.len();
     rep.case(regime);
     rep.distinct(Hasher::new().s(regime).s(&o.json().to_string()).fs(x0).u(pr.dim as u64).u(cs.kmax as u64).fs(&pr.data[0][..pr.data[0].len().min(8)]).finish(), true);
-    let detail0 = |extra: Value| json!({"objective": pr.label, "data": pr.data.iter().map(|d| jf(d)).collect::<Vec<_>>(), "start": jf(x0), "hyper": o.json(), "detail": extra});
+    let detail0 = |extra: Value| json!({"objective": pr.label, "data": pr.data.iter().map(|d| jf(d)).collect::<Vec<_>>(), "start": jf(x0), "hyper": o.json(), "route": cs.route, "detail": extra});
 
     // oracle self-check: hand-derived gradient vs reverse at the start point
     let exact = reference(pr, o, x0, cs.kmax, None);
@@ -498,7 +607,17 @@ fn monitor_case(rep: &mut Report, cs: &CaseSpec, rng: &mut Rng) {
         comparable.push(!dead && t <= 1e-6 * (1.0 + xn));
     }
 
-    let lib = LibOpt::new(o);
+    // (drawn for the route family only, so that every other workload keeps its random stream)
+    let other_lr = if cs.route == "new" { opt_lr(o) } else { opt_lr(o) * *rng.choose(&[0.1, 0.5, 2.0, 7.0]) };
+    let built = guard(|| build_route(o, cs.route, other_lr, &|a: &LibOpt| { let _ = a.call(pr, x0, 3); }));
+    let routed = match built {
+        Ok(r) => r,
+        Err(msg) => {
+            rep.check("C10.optimize.no_panic", regime, false, || detail0(json!({"route": cs.route, "panic": msg, "note": "while constructing the optimizer"})));
+            return;
+        }
+    };
+    let lib = &routed.obj;
     let site = o.site();
     // traj[j] = library result of a call that executed exactly j steps with budget j
     let mut traj: Vec<Option<Vec<f64>>> = vec![None; cs.kmax + 1];
@@ -506,6 +625,10 @@ fn monitor_case(rep: &mut Report, cs: &CaseSpec, rng: &mut Rng) {
     let mut low_power = 0u64;
     let mut worst = 0.0f64;
     for &k in &cs.budgets {
+        if let (true, Some(orig)) = (routed.interleave, routed.original.as_ref()) {
+            // the original keeps working while its clone is monitored
+            let _ = guard(|| orig.call(pr, x0, 1 + k % 5));
+        }
         let c0 = count(site);
         let r = guard(|| lib.call(pr, x0, k));
         let j = (count(site) - c0) as usize;
@@ -624,7 +747,12 @@ fn monitor_case(rep: &mut Report, cs: &CaseSpec, rng: &mut Rng) {
         let c = guard(|| fresh.call(pr, x0, k));
         if let (Ok(a), Ok(b), Ok(c)) = (a, b, c) {
             rep.check("C10.deterministic.repeat", regime, same_bits_slice(&a, &b), || detail0(json!({"maxsteps": k, "first": jf(&a), "second": jf(&b)})));
-            rep.check("C10.deterministic.fresh_vs_reused", regime, same_bits_slice(&a, &c), || detail0(json!({"maxsteps": k, "reused": jf(&a), "fresh": jf(&c)})));
+            rep.check("C10.deterministic.fresh_vs_reused", regime, same_bits_slice(&a, &c), || detail0(json!({"maxsteps": k, "route": cs.route, "reused": jf(&a), "fresh": jf(&c)})));
+            if let Some(orig) = routed.original.as_ref() {
+                if let Ok(d) = guard(|| orig.call(pr, x0, k)) {
+                    rep.check("C10.deterministic.clone_vs_original", regime, same_bits_slice(&a, &d), || detail0(json!({"maxsteps": k, "route": cs.route, "clone": jf(&a), "original": jf(&d)})));
+                }
+            }
         }
     }
     rep.sample(|| json!({"regime": regime, "hyper": o.json(), "start": jf(x0), "kmax": cs.kmax, "stopped_early_at": stop_at, "final": jf(&exact[cs.kmax]), "worst_ratio": worst}));
@@ -728,16 +856,70 @@ mod lm {
         pub start: Vec<f64>,
         /// per-parameter factor of the basis functions (`ScaledPoly` / `ScaledTrig` only)
         pub scale: Vec<f64>,
+        /// how the LM object is made (`new` unless the fit belongs to the route family)
+        pub route: &'static str,
     }
+
+    /// routes to an LM with tolerances (eps1, eps2, tau): see "every route to an optimizer" above
+    pub const ROUTES_LM: [&str; 6] = ["default+fields", "clone", "clone-then-fields", "fields-then-clone", "clone-of-used", "clone-interleaved"];
 
     impl Fit {
         pub fn label(&self) -> &'static str {
+            match self.route {
+                "new" => {}
+                "default+fields" => return "lm-route:default+fields",
+                "clone" => return "lm-route:clone",
+                "clone-then-fields" => return "lm-route:clone-then-fields",
+                "fields-then-clone" => return "lm-route:fields-then-clone",
+                "clone-of-used" => return "lm-route:clone-of-used",
+                _ => return "lm-route:clone-interleaved",
+            }
             match self.model {
                 Model::Poly => "lm:linear-poly",
                 Model::Trig => "lm:linear-trig",
                 Model::Exp => "lm:exp",
                 Model::Logistic => "lm:logistic",
                 Model::ScaledPoly | Model::ScaledTrig => "lm-scaled",
+            }
+        }
+        /// the LM object with tolerances (e1, e2, tau) made along this fit's route, and the original it was cloned
+        /// from (with the same tolerances) where there is one
+        pub fn make(&self, e1: f64, e2: f64, tau: f64) -> (LM, Option<LM>) {
+            match self.route {
+                "default+fields" => {
+                    let mut o = LM::default();
+                    o.eps1 = e1;
+                    o.eps2 = e2;
+                    o.tau = tau;
+                    (o, None)
+                }
+                "clone" | "clone-interleaved" => {
+                    let a = LM::new(e1, e2, tau);
+                    (a.clone(), Some(a))
+                }
+                "clone-then-fields" => {
+                    let mut a = LM::new(e1 * 1e3, e2 * 1e-3, tau * 10.0);
+                    let mut c = a.clone();
+                    for o in [&mut c, &mut a] {
+                        o.eps1 = e1;
+                        o.eps2 = e2;
+                        o.tau = tau;
+                    }
+                    (c, Some(a))
+                }
+                "fields-then-clone" => {
+                    let mut a = LM::default();
+                    a.eps1 = e1;
+                    a.eps2 = e2;
+                    a.tau = tau;
+                    (a.clone(), Some(a))
+                }
+                "clone-of-used" => {
+                    let a = LM::new(e1, e2, tau);
+                    let _ = self.call(&a, 3);
+                    (a.clone(), Some(a))
+                }
+                _ => (LM::new(e1, e2, tau), None),
             }
         }
         pub fn linear(&self) -> bool {
@@ -835,7 +1017,7 @@ mod lm {
             Model::Logistic => vec![rng.range(1.0, 5.0), rng.range(0.5, 3.0), rng.range(-1.5, 1.5)],
         };
         let noise = rng.log_range(1e-3, 0.3);
-        let mut f = Fit { model, xs, ys: vec![], start: vec![], scale: vec![1.0; np] };
+        let mut f = Fit { model, xs, ys: vec![], start: vec![], scale: vec![1.0; np], route: "new" };
         f.ys = f.xs.iter().map(|&x| f.value(&truth, x) + noise * rng.normal()).collect();
         // poor starts
         f.start = match model {
@@ -870,7 +1052,13 @@ mod lm {
         let tau = *rng.choose(&[1e-2, 1e-2, 1e-3, 1e-6, 1.0]);
         // tight tolerances make every call run to its budget (cost ∝ n² per step): small problems only
         let (e1, e2) = if rng.chance(0.7) || n > 40 { (1e-6, 1e-6) } else { (1e-14, 1e-14) };
-        let o = LM::new(e1, e2, tau);
+        let (o, original) = match guard(|| f.make(e1, e2, tau)) {
+            Ok(v) => v,
+            Err(msg) => {
+                rep.check("C10.lm.no_panic", regime, false, || detail(f, (e1, e2, tau), json!({"route": f.route, "panic": msg, "note": "while constructing the optimizer"})));
+                return;
+            }
+        };
         let oo = (e1, e2, tau);
         // RSS never above the start, for every step budget
         let kmax = 200;
@@ -888,6 +1076,10 @@ mod lm {
         };
         let mut last: Option<(Vec<f64>, Vec<f64>)> = None;
         for &k in &ks {
+            if let (true, Some(orig)) = (f.route == "clone-interleaved", original.as_ref()) {
+                // the original keeps working while its clone is monitored
+                let _ = guard(|| f.call(orig, 1 + k % 5));
+            }
             let s0 = count(Site::LmStep);
             let r = guard(|| f.call(&o, k));
             let steps = count(Site::LmStep) - s0;
@@ -925,6 +1117,21 @@ mod lm {
         if let Some((p, cov)) = &last {
             if let Ok((p2, cov2, _, _)) = guard(|| f.call(&o, kmax)) {
                 rep.check("C10.deterministic.lm", regime, same_bits_slice(p, &p2) && same_bits_slice(cov, &cov2), || detail(f, oo, json!({"first": jf(p), "second": jf(&p2)})));
+            }
+        }
+        // an object made along a route behaves bit for bit like one made by `new` with the same tolerances, and a
+        // clone like the original it was taken from
+        if f.route != "new" {
+            if let Some((p, cov)) = &last {
+                let fresh = LM::new(e1, e2, tau);
+                if let Ok((p2, cov2, _, _)) = guard(|| f.call(&fresh, kmax)) {
+                    rep.check("C10.deterministic.lm_route_vs_new", regime, same_bits_slice(p, &p2) && same_bits_slice(cov, &cov2), || detail(f, oo, json!({"route": f.route, "maxsteps": kmax, "route_object": jf(p), "LM::new": jf(&p2)})));
+                }
+                if let Some(orig) = original.as_ref() {
+                    if let Ok((p3, cov3, _, _)) = guard(|| f.call(orig, kmax)) {
+                        rep.check("C10.deterministic.clone_vs_original", regime, same_bits_slice(p, &p3) && same_bits_slice(cov, &cov3), || detail(f, oo, json!({"route": f.route, "maxsteps": kmax, "clone": jf(p), "original": jf(&p3)})));
+                    }
+                }
             }
         }
         if f.linear() {
@@ -1459,7 +1666,7 @@ mod lm {
             if np > 2 {
                 truth.push(rng.range(-2.0, 2.0));
             }
-            let mut f = Fit { model: Model::Exp, xs, ys: vec![], start: vec![], scale: vec![] };
+            let mut f = Fit { model: Model::Exp, xs, ys: vec![], start: vec![], scale: vec![], route: "new" };
             let amp = (truth[0] * (truth[1] * (lo + 0.5 * span)).exp()).abs();
             let noise = rng.log_range(1e-3, 0.1) * amp;
             f.ys = f.xs.iter().map(|&x| f.value(&truth, x) + noise * rng.normal()).collect();
@@ -1475,7 +1682,7 @@ mod lm {
             xs.sort_by(|a, b| a.partial_cmp(b).unwrap());
             let truth = vec![rng.range(1.0, 5.0), rng.range(0.5, 3.0), rng.range(-1.5, 1.5)];
             let noise = rng.log_range(1e-3, 0.3);
-            let mut f = Fit { model: Model::Logistic, xs, ys: vec![], start: vec![], scale: vec![] };
+            let mut f = Fit { model: Model::Logistic, xs, ys: vec![], start: vec![], scale: vec![], route: "new" };
             f.ys = f.xs.iter().map(|&x| f.value(&truth, x) + noise * rng.normal()).collect();
             let rate = truth[1] * rng.log_range(1.0, 3.0);
             let far = rng.range(19.0, 60.0) / rate;
@@ -1555,9 +1762,18 @@ mod lm {
         let lmin_jtj = linref::jacobi_eigenvalues(&jtj, np)[0].max(f64::MIN_POSITIVE);
         let regime = if lmin >= 0.05 { "lm-linear:corr-lmin>=0.05" } else { "lm-linear:corr-lmin<0.05" };
         rep.seen(regime, 1);
+        // the route family signs with its own regime (the well-conditioned class only: the other one is a known low-power class)
+        let regime = if f.route == "new" {
+            regime
+        } else if lmin >= 0.05 {
+            rep.seen("lm-route:reach-ls:judged", 1);
+            f.label()
+        } else {
+            return;
+        };
         let tau = *rng.choose(&[1e-2, 1e-3, 1e-6]);
         let budget = if cfg.thorough() && lmin < 0.05 { 2000 } else { 200 };
-        let o = LM::new(1e-14, 1e-14, tau);
+        let Ok((o, _)) = guard(|| f.make(1e-14, 1e-14, tau)) else { return };
         let a0 = count(Site::LmAccept);
         let r0 = count(Site::LmReject);
         match guard(|| f.call(&o, budget)) {
@@ -1603,21 +1819,21 @@ fn directed(rep: &mut Report, rng: &mut Rng) {
             a[i * n + i] = 4.0;
         }
         let pr = Problem { kind: obj::Kind::Quad, label: "quad-convex", data: vec![a, vec![0.0; n]], dim: n };
-        let cs = CaseSpec { pr: &pr, opt: Opt::Sgd { lr: 0.5, mom: 0.0, nesterov: false }, x0, kmax: 12, budgets: (0..=12).collect(), regime: "directed:sign-flip:sgd".into(), stop_regime: "sign-flip".into() };
+        let cs = CaseSpec { pr: &pr, opt: Opt::Sgd { lr: 0.5, mom: 0.0, nesterov: false }, x0, kmax: 12, budgets: (0..=12).collect(), regime: "directed:sign-flip:sgd".into(), stop_regime: "sign-flip".into(), route: "new" };
         monitor_case(rep, &cs, rng);
     }
     // (2) Adam: β1 = β2 = ½ make the first bias-corrected step exactly stepsize·sign(g) when g = 2^27
     //     swamps ε; start = stepsize/2 ⇒ x ↦ −x.
     {
         let pr = Problem { kind: obj::Kind::Quad, label: "quad-convex", data: vec![vec![1073741824.0], vec![0.0]], dim: 1 };
-        let cs = CaseSpec { pr: &pr, opt: Opt::Adam { lr: 0.25, b1: 0.5, b2: 0.5, eps: 1e-8 }, x0: vec![0.125], kmax: 12, budgets: (0..=12).collect(), regime: "directed:sign-flip:adam".into(), stop_regime: "sign-flip".into() };
+        let cs = CaseSpec { pr: &pr, opt: Opt::Adam { lr: 0.25, b1: 0.5, b2: 0.5, eps: 1e-8 }, x0: vec![0.125], kmax: 12, budgets: (0..=12).collect(), regime: "directed:sign-flip:adam".into(), stop_regime: "sign-flip".into(), route: "new" };
         monitor_case(rep, &cs, rng);
     }
     // (3) a coordinate that starts at exactly 0 on a problem of tiny scale: the first step is
     //     0 → 1e-21, an infinite relative change, and the iterates keep moving towards 1e-20.
     {
         let pr = Problem { kind: obj::Kind::Quad, label: "quad-convex", data: vec![vec![1.0], vec![1e-20]], dim: 1 };
-        let cs = CaseSpec { pr: &pr, opt: Opt::Sgd { lr: 0.1, mom: 0.0, nesterov: false }, x0: vec![0.0], kmax: 12, budgets: (0..=12).collect(), regime: "directed:zero-start:sgd".into(), stop_regime: "zero-start:tiny-scale".into() };
+        let cs = CaseSpec { pr: &pr, opt: Opt::Sgd { lr: 0.1, mom: 0.0, nesterov: false }, x0: vec![0.0], kmax: 12, budgets: (0..=12).collect(), regime: "directed:zero-start:sgd".into(), stop_regime: "zero-start:tiny-scale".into(), route: "new" };
         monitor_case(rep, &cs, rng);
     }
     // (3b) iterates that land *exactly* on a stationary point (gradient exactly 0) while the
@@ -1627,7 +1843,7 @@ fn directed(rep: &mut Report, rng: &mut Rng) {
         for dim in [1usize, 2] {
             let (a, b, x0) = if dim == 1 { (vec![2.0], vec![6.0], vec![1.0]) } else { (vec![2.0, 0.0, 0.0, 0.5], vec![6.0, 0.25], vec![1.0, 2.0]) };
             let pr = Problem { kind: obj::Kind::Quad, label: "quad-convex", data: vec![a, b], dim };
-            let cs = CaseSpec { pr: &pr, opt: Opt::Sgd { lr: 0.5, mom: 0.5, nesterov: nest }, x0, kmax: 40, budgets: (0..=40).collect(), regime: tag.into(), stop_regime: "exact-landing".into() };
+            let cs = CaseSpec { pr: &pr, opt: Opt::Sgd { lr: 0.5, mom: 0.5, nesterov: nest }, x0, kmax: 40, budgets: (0..=40).collect(), regime: tag.into(), stop_regime: "exact-landing".into(), route: "new" };
             monitor_case(rep, &cs, rng);
         }
     }
@@ -1635,27 +1851,28 @@ fn directed(rep: &mut Report, rng: &mut Rng) {
     for dim in [1usize, 2] {
         let (a, b, x0) = if dim == 1 { (vec![2e9], vec![2e9], vec![1.5]) } else { (vec![2e9, 0.0, 0.0, 1.0], vec![2e9, 0.3], vec![1.5, 2.0]) };
         let pr = Problem { kind: obj::Kind::Quad, label: "quad-convex", data: vec![a, b], dim };
-        let cs = CaseSpec { pr: &pr, opt: Opt::Adam { lr: 0.5, b1: 0.5, b2: 0.5, eps: 1e-8 }, x0, kmax: 40, budgets: (0..=40).collect(), regime: "directed:exact-landing:adam".into(), stop_regime: "exact-landing".into() };
+        let cs = CaseSpec { pr: &pr, opt: Opt::Adam { lr: 0.5, b1: 0.5, b2: 0.5, eps: 1e-8 }, x0, kmax: 40, budgets: (0..=40).collect(), regime: "directed:exact-landing:adam".into(), stop_regime: "exact-landing".into(), route: "new" };
         monitor_case(rep, &cs, rng);
     }
     // (4) controls that must stay silent: same quadratic, stepsize ¼ (converges in one step to 0,
     //     then genuinely stops), and a start at the optimum.
     {
         let pr = Problem { kind: obj::Kind::Quad, label: "quad-convex", data: vec![vec![4.0], vec![0.0]], dim: 1 };
-        let cs = CaseSpec { pr: &pr, opt: Opt::Sgd { lr: 0.25, mom: 0.0, nesterov: false }, x0: vec![1.5], kmax: 12, budgets: (0..=12).collect(), regime: "directed:control:sgd".into(), stop_regime: "control".into() };
+        let cs = CaseSpec { pr: &pr, opt: Opt::Sgd { lr: 0.25, mom: 0.0, nesterov: false }, x0: vec![1.5], kmax: 12, budgets: (0..=12).collect(), regime: "directed:control:sgd".into(), stop_regime: "control".into(), route: "new" };
         monitor_case(rep, &cs, rng);
         let pr = Problem { kind: obj::Kind::Quad, label: "quad-convex", data: vec![vec![2.0], vec![3.0]], dim: 1 };
-        let cs = CaseSpec { pr: &pr, opt: Opt::Sgd { lr: 0.1, mom: 0.9, nesterov: true }, x0: vec![1.5], kmax: 12, budgets: (0..=12).collect(), regime: "directed:control:nesterov".into(), stop_regime: "control".into() };
+        let cs = CaseSpec { pr: &pr, opt: Opt::Sgd { lr: 0.1, mom: 0.9, nesterov: true }, x0: vec![1.5], kmax: 12, budgets: (0..=12).collect(), regime: "directed:control:nesterov".into(), stop_regime: "control".into(), route: "new" };
         monitor_case(rep, &cs, rng);
     }
 }
 
 pub fn run(cfg: &Cfg, rep: &mut Report) {
-    rep.rule = "Adam/SGD: random objective (convex / non-convex quadratic in 1..8 dims with eigenvalues 0.05..4 resp. -1..4, chained Rosenbrock in 2..4 dims, mean-squared-error losses of p0*exp(p1 t)[+p2], p0*sin(p1 t+p2), (p0+p1 t)/(1+(p2 t)^2) on 5..30 points) x optimizer (Adam, plain SGD, momentum, Nesterov) x hyper-parameters (stepsize log-uniform 1e-4..0.5, beta1/beta2 in (0.01,0.9999), momentum in [0,0.99]); every maxsteps 0..K is a separate optimize call on one reused optimizer object (K = 200, plus in both tiers 4 (thorough 16) long trajectories per optimizer with budgets 255..257, 511..513, 999..1001, 1023..1025, 1499, 1500, 1999, 2000, stepsize 1e-4..5e-3 and beta1/beta2/momentum in {0.9, 0.95, 0.99, 0.999, 0.9999}; thorough: 0..200 dense for all 400 cases, 12 cases dense to 2000, the others 40 random budgets k in 201..2000 each with k-1). LM: random polynomial / trigonometric (linear), exponential and logistic fits, 5..200 noisy points, 1..5 parameters, poor starts; every budget 0..200 is a separate call for n <= 12, else budgets 0..12 (0..8 for n > 100) + 10 (4) random ones + 200. Then separable quadratics whose solution components differ by up to 1e12 in size (2..6 dims, per-coordinate contraction rates stepsize*a_i in {1, .5, .75, 1.5, .25} and sometimes one slow coordinate .05/.1) for the four optimizers, same trajectory / early-stop oracle. Then linear LM problems started 1e2..1e8 solution norms away from the least-squares solution (direction components differing by up to 1e6): descent for budgets 0,1,2,3,5,..,144,200 with (eps,eps,tau), eps in {1e-6,1e-8,1e-10}, tau in {1e-2,1e-3,1e-6,1e-9}; a call that stopped before its budget lies within the distance its own stop rules imply; (1e-14,1e-14,tau) reaches the solution. Then LM at absolute scales far from 1: linear fits sum p_i c_i phi_i(x) (same polynomial / trigonometric bases, 1..5 parameters, 5..200 points) with every basis function multiplied by a power of two or ten c_i in 1e-12..1e12 (one common factor: uniform-tiny 1e-12..1e-8, uniform-huge 1e4..1e12; individual factors: mixed-tiny, mixed-huge, mixed-wide 1e-12..1e12) and the responses by sigma (parameters of order 1, unscaled responses, or a random power in 1e-12..1e12) - budgets 0,1,2,3,5,..,144,200 with tolerances adapted to the scale (descent, least-squares solution reached in the problem's own units, covariance) and budgets 0,1,2,3,8,34,200 with the default tolerances (descent, covariance); exponential fits of late-time data (x in [15..40, +5..25]) started with exp(rate*x) <= exp(-19) at every point and logistic fits started with the midpoint 19..60 rate-lengths outside the data - same budgets with the default tolerances and with eps1 = 1e-10*|gradient at the start| (descent, covariance judged scale-free against the unit-diagonal form of JtJ). non-trivial = every case (all have a non-zero gradient at the start); distinct by (regime, hyper-parameters, start, data prefix)".into();
+    rep.rule = "Adam/SGD: random objective (convex / non-convex quadratic in 1..8 dims with eigenvalues 0.05..4 resp. -1..4, chained Rosenbrock in 2..4 dims, mean-squared-error losses of p0*exp(p1 t)[+p2], p0*sin(p1 t+p2), (p0+p1 t)/(1+(p2 t)^2) on 5..30 points) x optimizer (Adam, plain SGD, momentum, Nesterov) x hyper-parameters (stepsize log-uniform 1e-4..0.5, beta1/beta2 in (0.01,0.9999), momentum in [0,0.99]); every maxsteps 0..K is a separate optimize call on one reused optimizer object (K = 200, plus in both tiers 4 (thorough 16) long trajectories per optimizer with budgets 255..257, 511..513, 999..1001, 1023..1025, 1499, 1500, 1999, 2000, stepsize 1e-4..5e-3 and beta1/beta2/momentum in {0.9, 0.95, 0.99, 0.999, 0.9999}; thorough: 0..200 dense for all 400 cases, 12 cases dense to 2000, the others 40 random budgets k in 201..2000 each with k-1). LM: random polynomial / trigonometric (linear), exponential and logistic fits, 5..200 noisy points, 1..5 parameters, poor starts; every budget 0..200 is a separate call for n <= 12, else budgets 0..12 (0..8 for n > 100) + 10 (4) random ones + 200. Then separable quadratics whose solution components differ by up to 1e12 in size (2..6 dims, per-coordinate contraction rates stepsize*a_i in {1, .5, .75, 1.5, .25} and sometimes one slow coordinate .05/.1) for the four optimizers, same trajectory / early-stop oracle. Then linear LM problems started 1e2..1e8 solution norms away from the least-squares solution (direction components differing by up to 1e6): descent for budgets 0,1,2,3,5,..,144,200 with (eps,eps,tau), eps in {1e-6,1e-8,1e-10}, tau in {1e-2,1e-3,1e-6,1e-9}; a call that stopped before its budget lies within the distance its own stop rules imply; (1e-14,1e-14,tau) reaches the solution. Then LM at absolute scales far from 1: linear fits sum p_i c_i phi_i(x) (same polynomial / trigonometric bases, 1..5 parameters, 5..200 points) with every basis function multiplied by a power of two or ten c_i in 1e-12..1e12 (one common factor: uniform-tiny 1e-12..1e-8, uniform-huge 1e4..1e12; individual factors: mixed-tiny, mixed-huge, mixed-wide 1e-12..1e12) and the responses by sigma (parameters of order 1, unscaled responses, or a random power in 1e-12..1e12) - budgets 0,1,2,3,5,..,144,200 with tolerances adapted to the scale (descent, least-squares solution reached in the problem's own units, covariance) and budgets 0,1,2,3,8,34,200 with the default tolerances (descent, covariance); exponential fits of late-time data (x in [15..40, +5..25]) started with exp(rate*x) <= exp(-19) at every point and logistic fits started with the midpoint 19..60 rate-lengths outside the data - same budgets with the default tolerances and with eps1 = 1e-10*|gradient at the start| (descent, covariance judged scale-free against the unit-diagonal form of JtJ). Then every route to an optimizer with a given hyper-parameter setting (case i: optimizer = i mod 4 of {Adam, plain SGD, classical momentum, Nesterov}, route = (i/4) mod 8 (Adam) resp. 7 (SGD) of {new(other stepsize) + set_stepsize, Default + set_stepsize, Adam::with_stepsize, clone(), clone then set_stepsize, set_stepsize then clone, clone of an object that has already run 3 steps, a clone monitored while the original runs 1..5 steps between its calls}, objective family by (i/32) mod 6, momentum >= 0.05 for the momentum variants, defaults (0.9, 0.999, 1e-8 resp. momentum 0.9 + Nesterov) for the Default routes): budgets 0..40 dense, same trajectory / early-stop oracle, bit-for-bit comparison with an object made by new and with the original of a clone. LM routes (case k: route = k mod 6 of {Default + public fields, clone, clone then fields, fields then clone, clone of a used object, clone used while the original is used}, model by (k/6) mod 5, series of <= 60 points): the LM oracle of the main workload on the route's object plus bit-for-bit comparison with LM::new(same tolerances) and with the original. non-trivial = every case (all have a non-zero gradient at the start); distinct by (regime, hyper-parameters, start, data prefix)".into();
     rep.assume("objectives avoid `f64 / Var` nodes: reverse 0.2.2 differentiates c/x as -1/x (a defect of the autodiff dependency, not of compute); divisions are Var/Var and Var/f64");
     rep.assume("iterates are compared while the reference is finite (< 1e150) and the self-calibrated tolerance stays below 1e-6*(1+|x|); later budgets of such a case are counted under '<regime>:low-power' and only checked for panics, shape, early-stop rule and determinism");
     rep.assume("'stopped changing' is judged on the library's own reconstructed iterates j and j-1 (4 ulp, same sign); the library iterate j is itself tied to the reference iterate j by the iterate assertion");
     rep.assume("LM: n >= p + 2 (s^2 = RSS/(n-p) is undefined for n = p); starts with non-finite RSS are skipped; reaching the least-squares solution is demanded only when kappa(JtJ) <= 4e4 (normal equations in double precision can deliver 1e-7) with LM::new(1e-14,1e-14,tau) and 200 steps (2000 in the thorough tier for the poorly conditioned class)");
+    rep.assume("routes: the hyper-parameter setting the property quantifies over is that of the object that runs, however it was made (new, Default, with_stepsize, set_stepsize, public fields of LM, Clone); an object made along any route must follow the same published recurrence and, the algorithms being deterministic, give bit-for-bit the result of an object made by new with the same setting");
     rep.assume("LM far starts: the stop-rule bound is asserted only when the call stopped before its budget, no step was rejected (hook; every step of a linear model has gain ratio 2 against the damped model that was solved, is accepted and divides the damping by 3, so mu <= tau*max diag(JtJ), for every column scaling) and (1 + mu0*||inv(JtJ) diag(JtJ)||)*eps2 <= 0.1; other cases are counted under lm-linear:far-start:stop-bound:low-power(*)");
     rep.assume("LM scaled fits: the least-squares clause is judged in the units p_i*c2_i/sigma2 (c2, sigma2 = nearest powers of two of the column / response factors, an exact change of units) with tau' = tau*max diag(JtJ in units)/max diag(JtJ), eps1' = 1e-14*sigma2*min c2, eps2' = 1e-14*min(min unit/max unit, sqrt(min unit)), when kappa(JtJ in units) <= 4e4; the covariance clause of the scaled and plateau fits is judged on D cov D / s^2 against inv(D^-1 JtJ D^-1), D = Jacobian column norms at the returned point, when 1000(n+p)eps*kappa of that unit-diagonal form <= 1e-3 (else counted under *:cov:low-power(kappa))");
     let (ncase, kmax) = if cfg.lite { (cfg.pick(8, 8, 2), 20) } else if cfg.thorough() { (400, 2000) } else { (60, 200) };
@@ -1690,6 +1907,8 @@ pub fn run(cfg: &Cfg, rep: &mut Report) {
         LmFar(usize),
         LmScaled(usize),
         LmPlateau(usize),
+        TrajRoute(usize),
+        LmRoute(usize),
         Idle,
     }
     // parameter vectors whose components differ by up to 1e12 in size (stream 4), linear LM fits from far starts (stream 5)
@@ -1702,7 +1921,12 @@ pub fn run(cfg: &Cfg, rep: &mut Report) {
     // long trajectories with sparse budgets around round step counts (stream 6); the lite layers stop at 20 steps
     let nlong = if cfg.lite { 0 } else if cfg.thorough() { 64 } else { 16 };
     traj_items.extend((0..nlong).map(Item::TrajLong));
+    // every route to an optimizer with a given hyper-parameter setting (streams 9 and 10)
+    let nroute = if cfg.miri() { 2 } else if cfg.lite { 4 } else if cfg.thorough() { 300 } else { 60 };
+    traj_items.extend((0..nroute).map(Item::TrajRoute));
+    let nroute_lm = if cfg.miri() { 0 } else { cfg.pick(36, 360, 6) };
     let mut lm_items: std::collections::VecDeque<Item> = lm_order.iter().map(|&k| Item::Lm(k)).collect();
+    lm_items.extend((0..nroute_lm).map(Item::LmRoute));
     lm_items.extend((0..nfar).map(Item::LmFar));
     // linear fits whose basis functions are uniformly or individually tiny / huge (stream 7), exponential and logistic
     // fits started on a plateau (stream 8): up to 33 calls of up to 200 steps each, not in the interpreter
@@ -1741,7 +1965,7 @@ pub fn run(cfg: &Cfg, rep: &mut Report) {
             // family), the others 40 random budgets k in 201..2000 together with k-1
             let dense = if cfg.thorough() && fam <= 2 && i < 24 { kmax } else { 200.min(kmax) };
             let b = budgets(kmax, dense, 40, rng);
-            let cs = CaseSpec { pr: &pr, opt: o, x0, kmax, budgets: b, regime: regime.clone(), stop_regime: regime };
+            let cs = CaseSpec { pr: &pr, opt: o, x0, kmax, budgets: b, regime: regime.clone(), stop_regime: regime, route: "new" };
             monitor_case(rep, &cs, rng);
         }
         Item::TrajScaled(i) => {
@@ -1759,7 +1983,7 @@ pub fn run(cfg: &Cfg, rep: &mut Report) {
             };
             let regime = format!("{}:{}", o.name(), pr.label);
             let b = budgets(kmax, 200.min(kmax), 40, rng);
-            let cs = CaseSpec { pr: &pr, opt: o, x0, kmax, budgets: b, regime: regime.clone(), stop_regime: regime };
+            let cs = CaseSpec { pr: &pr, opt: o, x0, kmax, budgets: b, regime: regime.clone(), stop_regime: regime, route: "new" };
             monitor_case(rep, &cs, rng);
         }
         Item::TrajLong(i) => {
@@ -1800,8 +2024,68 @@ pub fn run(cfg: &Cfg, rep: &mut Report) {
             }
             b.extend_from_slice(&[1499, 1500, 1999, 2000]);
             let regime = format!("{}:long-budget", o.name());
-            let cs = CaseSpec { pr: &pr, opt: o, x0, kmax, budgets: b, regime: regime.clone(), stop_regime: regime };
+            let cs = CaseSpec { pr: &pr, opt: o, x0, kmax, budgets: b, regime: regime.clone(), stop_regime: regime, route: "new" };
             monitor_case(rep, &cs, rng);
+        }
+        Item::TrajRoute(i) => {
+            let seed = case_seed(cfg.seed, 9, i as u64);
+            rep.case_seed = seed;
+            let rng = &mut Rng::new(seed);
+            // optimizer by i mod 4 (Adam, plain SGD, classical momentum, Nesterov), route by (i / 4) mod (number of routes)
+            let which_opt = if cfg.lite { [2usize, 0, 3, 1][i % 4] } else { i % 4 };
+            let route: &'static str = if cfg.lite {
+                // sanitizer layers: the routes that copy an object (and its tape)
+                ["clone", "clone-of-used", "set-then-clone", "clone-interleaved"][i % 4]
+            } else if which_opt == 0 {
+                ROUTES_ADAM[(i / 4) % ROUTES_ADAM.len()]
+            } else {
+                ROUTES_SGD[(i / 4) % ROUTES_SGD.len()]
+            };
+            let fam = (i / 32) % 6;
+            let (pr, x0) = match fam {
+                0 => obj::quadratic(rng, true),
+                1 => obj::quadratic(rng, false),
+                2 => obj::rosenbrock(rng),
+                f => obj::least_squares(rng, f - 3),
+            };
+            let mut o = random_opt(rng, which_opt, fam == 2);
+            if route_needs_defaults(route) {
+                // Default fixes everything but the stepsize; SGD's default is Nesterov with momentum 0.9, so the
+                // plain and classical-momentum optimizers have no such route
+                o = match o {
+                    Opt::Adam { lr, .. } => Opt::Adam { lr, b1: 0.9, b2: 0.999, eps: 1e-8 },
+                    Opt::Sgd { lr, .. } => Opt::Sgd { lr, mom: 0.9, nesterov: true },
+                };
+            } else if let Opt::Sgd { lr, mom, nesterov } = o {
+                // a momentum that is really there, so that the three SGD variants are three different recurrences
+                if which_opt >= 2 && mom < 0.05 {
+                    o = Opt::Sgd { lr, mom: 0.05 + mom, nesterov };
+                }
+            }
+            let kmax = if cfg.miri() { 8 } else if cfg.lite { 12 } else { 40 };
+            let regime = format!("route:{}:{}", o.name(), route);
+            rep.seen(&format!("route:{}", route), 1);
+            rep.seen(&format!("route:{}", o.name()), 1);
+            let cs = CaseSpec { pr: &pr, opt: o, x0, kmax, budgets: (0..=kmax).collect(), regime: regime.clone(), stop_regime: regime, route };
+            monitor_case(rep, &cs, rng);
+        }
+        Item::LmRoute(k) => {
+            let seed = case_seed(cfg.seed, 10, k as u64);
+            rep.case_seed = seed;
+            let rng = &mut Rng::new(seed);
+            let model = match (k / lm::ROUTES_LM.len()) % 5 {
+                0 | 1 => lm::Model::Poly,
+                2 => lm::Model::Trig,
+                3 => lm::Model::Exp,
+                _ => lm::Model::Logistic,
+            };
+            let mut f = lm::random_fit(rng, model);
+            // the cost of a call grows like n^1.7: moderate series are enough for a statement about the object
+            while f.xs.len() > 60 {
+                f = lm::random_fit(rng, model);
+            }
+            f.route = lm::ROUTES_LM[k % lm::ROUTES_LM.len()];
+            lm::monitor(cfg, rep, &f, rng, false);
         }
         Item::LmFar(k) => {
             let seed = case_seed(cfg.seed, 5, k as u64);
@@ -1872,6 +2156,24 @@ pub fn run(cfg: &Cfg, rep: &mut Report) {
         }
         for s in ["adam.step", "sgd.step", "lm.step", "lm.accept", "lm.reject"] {
             rep.require(s, 1);
+        }
+        for r in ROUTES_ADAM {
+            rep.require(&format!("route:adam:{}", r), 1);
+        }
+        for r in ROUTES_SGD {
+            if route_needs_defaults(r) {
+                rep.require(&format!("route:nesterov:{}", r), 1);
+            } else {
+                for o in ["sgd", "momentum", "nesterov"] {
+                    rep.require(&format!("route:{}:{}", o, r), 1);
+                }
+            }
+        }
+        if !cfg.miri() {
+            for r in lm::ROUTES_LM {
+                rep.require(&format!("lm-route:{}", r), 1);
+            }
+            rep.require("lm-route:reach-ls:judged", 1);
         }
     }
 }
